@@ -66,7 +66,7 @@ package modeling
 //@ pred schedSame(t) = t.nextTickTime == old(t.nextTickTime) && (t.hasScheduledTick <==> old(t.hasScheduledTick)) && t.lastRunTickTime == old(t.lastRunTickTime) && (t.hasRunTick <==> old(t.hasRunTick))
 
 //@ fn (*Component[S, T, R]).LoadCheckpoint
-//@   property C07 C06
+//@   property C07 C06 C08
 //@   requires c != nil
 //@   witness decoded int = state     // the State value decoded from dto.State (declared after the first returns)
 //@   label C06.comp.load.state
@@ -87,7 +87,7 @@ package modeling
 
 // ---- EventDrivenComponent.LoadCheckpoint ----
 //@ fn (*EventDrivenComponent[S, T, R]).LoadCheckpoint
-//@   property C07 C06
+//@   property C07 C06 C08
 //@   requires c != nil
 //@   witness decoded int = state     // the State value decoded from dto.State (declared after the first returns)
 //@   label C06.ed.load.state
